@@ -19,7 +19,7 @@ import (
 func TestMain(m *testing.M) { hx.Main(m) }
 
 type spec struct {
-	Kind   string `json:"kind"` // mix | cap | nogrowth | reset | syncfail | pairbusy | capfine | realrestart | flakypeer | aged | multi
+	Kind   string `json:"kind"` // mix | cap | nogrowth | reset | syncfail | pairbusy | capfine | realrestart | flakypeer | aged | multi | wrongpeer
 	Proto  string `json:"proto"`
 	RMs    int    `json:"reconnect_ms"`
 	MaxMs  int    `json:"max_ms"`
@@ -29,6 +29,7 @@ type spec struct {
 	Yield  bool   `json:"yield,omitempty"`
 	Tr     string `json:"tr,omitempty"`     // flakypeer: transport
 	AgeMs  int    `json:"age_ms,omitempty"` // aged: how old the dialers are when they have to connect again
+	Status int    `json:"status,omitempty"` // wrongpeer: what the HTTP front end of a T phase answers
 }
 
 // mixProtos: the protocol of the dialling socket in the scripted cases.  Half of the cases keep the
@@ -148,6 +149,9 @@ func TestC14(t *testing.T) {
 	// multi (multi_test.go): a socket that owns several dialers, one of which the application closes
 	// before it closes the socket.  Appended last: the indices of the cases above do not depend on it.
 	cases = append(cases, multiSpecs(rnd, r.Pick(30, 900))...)
+	// wrongpeer (wrongpeer_test.go): the address is served in turn by peers that turn the dialer away
+	// (wrong protocol, bad SP version, HTTP error status ...) and by the right peer; real transports and inproc.
+	cases = append(cases, wrongPeerSpecs(rnd, r.Pick(36, 1200))...)
 	r.Run(cases, func(c *mon.Case) {
 		sp := c.Spec.(spec)
 		if sp.Kind == "flakypeer" {
@@ -174,6 +178,15 @@ func TestC14(t *testing.T) {
 			}
 			runMulti(c, sp)
 			c.Sig("multi|%s|%d|%d|%v|%s", sp.Proto, sp.RMs, sp.MaxMs, sp.Async, sp.Script)
+			return
+		}
+		if sp.Kind == "wrongpeer" {
+			if sp.Yield {
+				hx.SetYields(c.Rand.Int63(), &hx.YieldCfg{ProbGosched: 0.25, ProbSleep: 0.15, MaxSleep: 300 * time.Microsecond})
+				defer hx.SetYields(0, nil)
+			}
+			runWrongPeer(c, sp)
+			c.Sig("wrongpeer|%s|%s|%d|%d|%v|%s|%d|%s", sp.Tr, sp.Proto, sp.RMs, sp.MaxMs, sp.Async, sp.Script, sp.Status, sp.End)
 			return
 		}
 		if sp.Kind == "realrestart" {
